@@ -44,7 +44,8 @@ def list_file(draw):
       lines.append(p['text'] + pad)
       entries.append(p)
     elif k <= 6:
-      t = draw(st.sampled_from(rx.FREE_POOL))
+      # half of the time from the entries with capturing groups / back-references / conditionals
+      t = draw(st.one_of(st.sampled_from(rx.FREE_POOL), st.sampled_from(rx.FREE_POOL[:5] + [r'(web|db)\.'])))
       lines.append(t)
       entries.append({'kind': 'free', 'text': t})
     elif k == 7:
@@ -80,6 +81,9 @@ def cases(draw):
       bl_text, bl = '', []
     pats = [p for p in wl + bl if p['kind'] != 'free']
     names = rx.names_for(pats)
+    if any(p['kind'] == 'free' for p in wl + bl):
+      names = st.one_of(names, st.sampled_from(['servers.db.db.queries', 'web.web', 'cpu11.load', 'x.prod.prod', 'b.count', 'a.b',
+                                                 'db.web', 'db.db', 'x22', 'a.', 'carbon.cpu']))
     pts = []
     for _ in range(draw(st.integers(1, 10))):
       pts.append([draw(names), draw(ts_strategy()), draw(value_strategy())])
